@@ -3207,7 +3207,11 @@ def check_C16(tier: str, seed: int) -> int:
             direct_fail.append({"what": "asefile::AsepriteFile is not Send + Sync (the assertion binary does not compile)", "rustc": err})
         items: List[Tuple[str, str]] = []
         twin_pairs: List[Tuple[int, int]] = []
+        poison = poison_files()
         for i, (s, data) in enumerate(small_sprites(rng, 60 if tier == "quick" else 600, max_canvas=8, max_layers=5, max_frames=3)):
+            if i % 5 == 3:
+                # an input that is refused inside the inflate step, between the others (in the sequence passes it precedes well-formed ones)
+                items.append((w.put(poison[(i // 5) % len(poison)]), "refused inside inflate (kind %d)" % ((i // 5) % len(poison))))
             items.append((w.put(data), "generated"))
             if i % 3 == 0:
                 # the same sprite under other names (palette entries, layers, tags, ...): loaded right after its original in a one-thread
